@@ -48,7 +48,7 @@ theorem detect_pgp_iff (bs : Bytes) : detect bs = .pgp ↔
         · exact atPos0_excl h (Ne.symm n1)
         · exact atPos0_excl h (Ne.symm n2)
         · exact atPos0_excl h (Ne.symm n3)
-      refine ⟨hx _ _ (by decide) (by decide) (by decide), hx _ _ (by decide) (by decide) (by decide), Or.inr ⟨hx _ _ (by decide) (by decide) (by decide), h3, h4, h5, hx _ _ (by decide) (by decide) (by decide), hx _ _ (by decide) (by decide) (by decide), hx _ _ (by decide) (by decide) (by decide), h9, ⟨hx _ _ (by decide) (by decide) (by decide), hx _ _ (by decide) (by decide) (by decide)⟩, hx _ _ (by decide) (by decide) (by decide), hx _ _ (by decide) (by decide) (by decide), h13⟩⟩
+      refine ⟨hx _ _ (by decide) (by decide) (by decide), hx _ _ (by decide) (by decide) (by decide), Or.inr ⟨hx _ _ (by decide) (by decide) (by decide), h3, h4, h5, hx _ _ (by decide) (by decide) (by decide), hx _ _ (by decide) (by decide) (by decide), hx _ _ (by decide) (by decide) (by decide), h9, ⟨⟨hx _ _ (by decide) (by decide) (by decide), hx _ _ (by decide) (by decide) (by decide)⟩, hx _ _ (by decide) (by decide) (by decide), hx _ _ (by decide) (by decide) (by decide)⟩, hx _ _ (by decide) (by decide) (by decide), hx _ _ (by decide) (by decide) (by decide), h13⟩⟩
 
 /-- a catalog: the certTrustList OID within the first 256 bytes, unless the file starts like an RPM, a Debian archive or
     PGP armour -/
@@ -121,21 +121,25 @@ theorem detect_appManifest_iff (bs : Bytes) : detect bs = .appManifest ↔
     isMZ bs = false ∧ isCfb bs = false ∧ isCabHdr bs = false ∧ hasAsm bs = true := by
   rw [detect_unfold]; simp only [ite_eq_iff_b]; simp
 
-/-- little-endian Mach-O only (`CF FA ED FE` / `CE FA ED FE`); `…assembly` in the first 256 bytes pre-empts it -/
+/-- Mach-O in either byte order (`CF FA ED FE`, `CE FA ED FE`, `FE ED FA CF`, `FE ED FA CE`); `…assembly` in the first 256
+    bytes, an OID or `ustar` pre-empts it -/
 theorem detect_machO_iff (bs : Bytes) : detect bs = .machO ↔
-    hasCtl bs = false ∧ hasSignedData bs = false ∧ isTar bs = false ∧ hasAsm bs = false ∧ isMachoLE bs = true := by
+    hasCtl bs = false ∧ hasSignedData bs = false ∧ isTar bs = false ∧ hasAsm bs = false ∧ isMacho bs = true := by
   rw [detect_unfold]; simp only [ite_eq_iff_b]; simp
   constructor
   · rintro ⟨_, _, _, h3, h4, h5, _, _, _, h9, h10⟩
     exact ⟨h3, h4, h5, h9, h10⟩
   · rintro ⟨h3, h4, h5, h9, h10⟩
-    have hx : ∀ (b : UInt8) (q : Bytes), b ≠ 0xcf → b ≠ 0xce → atPos bs (b :: q) 0 = false := by
-      intro b q n1 n2
-      rcases h10 with h | h
+    have hx : ∀ (b : UInt8) (q : Bytes), b ≠ 0xcf → b ≠ 0xce → b ≠ 0xfe → atPos bs (b :: q) 0 = false := by
+      intro b q n1 n2 n3
+      rcases h10 with (h | h) | (h | h)
       · exact atPos0_excl h (Ne.symm n1)
       · exact atPos0_excl h (Ne.symm n2)
-    exact ⟨hx _ _ (by decide) (by decide), hx _ _ (by decide) (by decide), hx _ _ (by decide) (by decide), h3, h4, h5,
-      hx _ _ (by decide) (by decide), hx _ _ (by decide) (by decide), hx _ _ (by decide) (by decide), h9, h10⟩
+      · exact atPos0_excl h (Ne.symm n3)
+      · exact atPos0_excl h (Ne.symm n3)
+    exact ⟨hx _ _ (by decide) (by decide) (by decide), hx _ _ (by decide) (by decide) (by decide),
+      hx _ _ (by decide) (by decide) (by decide), h3, h4, h5, hx _ _ (by decide) (by decide) (by decide),
+      hx _ _ (by decide) (by decide) (by decide), hx _ _ (by decide) (by decide) (by decide), h9, h10⟩
 
 theorem detect_machOFat_iff (bs : Bytes) : detect bs = .machOFat ↔
     hasCtl bs = false ∧ hasSignedData bs = false ∧ isTar bs = false ∧ hasAsm bs = false ∧ isFat bs = true := by
@@ -146,7 +150,7 @@ theorem detect_machOFat_iff (bs : Bytes) : detect bs = .machOFat ↔
   · rintro ⟨h3, h4, h5, h9, h11⟩
     exact ⟨atPos0_excl h11 (by decide), atPos0_excl h11 (by decide), atPos0_excl h11 (by decide), h3, h4, h5,
       atPos0_excl h11 (by decide), atPos0_excl h11 (by decide), atPos0_excl h11 (by decide), h9,
-      ⟨atPos0_excl h11 (by decide), atPos0_excl h11 (by decide)⟩, h11⟩
+      ⟨⟨atPos0_excl h11 (by decide), atPos0_excl h11 (by decide)⟩, atPos0_excl h11 (by decide), atPos0_excl h11 (by decide)⟩, h11⟩
 
 theorem detect_xar_iff (bs : Bytes) : detect bs = .xar ↔
     hasCtl bs = false ∧ hasSignedData bs = false ∧ isTar bs = false ∧ hasAsm bs = false ∧ isXar bs = true := by
@@ -157,7 +161,8 @@ theorem detect_xar_iff (bs : Bytes) : detect bs = .xar ↔
   · rintro ⟨h3, h4, h5, h9, h12⟩
     exact ⟨atPos0_excl h12 (by decide), atPos0_excl h12 (by decide), atPos0_excl h12 (by decide), h3, h4, h5,
       atPos0_excl h12 (by decide), atPos0_excl h12 (by decide), atPos0_excl h12 (by decide), h9,
-      ⟨atPos0_excl h12 (by decide), atPos0_excl h12 (by decide)⟩, atPos0_excl h12 (by decide), h12⟩
+      ⟨⟨atPos0_excl h12 (by decide), atPos0_excl h12 (by decide)⟩, atPos0_excl h12 (by decide), atPos0_excl h12 (by decide)⟩,
+      atPos0_excl h12 (by decide), h12⟩
 
 /-- Unknown is everything else: a tar archive (`ustar` at 257) whatever it starts with, an `MZ` file whose probe fails
     (even if a later pattern would match), or no rule at all -/
@@ -165,7 +170,7 @@ theorem detect_unknown_iff (bs : Bytes) : detect bs = .unknown ↔
     isRpm bs = false ∧ isDebHdr bs = false ∧ isArmor bs = false ∧ hasCtl bs = false ∧ hasSignedData bs = false ∧
       (isTar bs = true ∨ isTar bs = false ∧
         (isMZ bs = true ∧ mzProbe bs = false ∨
-         isMZ bs = false ∧ isCfb bs = false ∧ isCabHdr bs = false ∧ hasAsm bs = false ∧ isMachoLE bs = false ∧
+         isMZ bs = false ∧ isCfb bs = false ∧ isCabHdr bs = false ∧ hasAsm bs = false ∧ isMacho bs = false ∧
            isFat bs = false ∧ isXar bs = false ∧ isPgpBin bs = false)) := by
   rw [detect_unfold]; simp only [ite_eq_iff_b]; simp
 
@@ -174,6 +179,106 @@ theorem detect_never_zip_family (bs : Bytes) :
     detect bs ≠ .jar ∧ detect bs ≠ .appx ∧ detect bs ≠ .vsix ∧ detect bs ≠ .xap ∧ detect bs ≠ .apk ∧ detect bs ≠ .ipa := by
   rw [detect_unfold]
   refine ⟨?_, ?_, ?_, ?_, ?_, ?_⟩ <;> (intro h; simp only [ite_eq_iff_b] at h; simp at h)
+
+/-! ### the repair of FM3 (big-endian Mach-O magics added to the Mach-O rule): what it changes, exactly -/
+
+/-- The two new patterns are prefix patterns with first byte `FE`; no other prefix pattern of the list starts with `FE`, so
+    they are disjoint from every prefix rule.  They can coincide only with the window / position tests (the two OIDs, `ustar`
+    at 257, `…assembly`), all of which come earlier in the list and keep winning.  Hence: the verdict changes for a file
+    iff it starts with a big-endian magic and was Unknown; it then becomes Mach-O.  Nothing that was detected as some type
+    before is detected differently now.  (For ALL byte strings.) -/
+theorem macho_be_only_reclassifies_unknown (bs : Bytes) :
+    detect bs = detectOrigFM3 bs ∨ (detectOrigFM3 bs = .unknown ∧ detect bs = .machO ∧ isMachoBE bs = true) := by
+  rw [detect_unfold, detectOrigFM3_unfold]
+  by_cases c0 : isRpm bs = true
+  · simp [*]
+  by_cases c1 : isDebHdr bs = true
+  · simp [*]
+  by_cases c2 : isArmor bs = true
+  · simp [*]
+  by_cases c3 : hasCtl bs = true
+  · simp [*]
+  by_cases c4 : hasSignedData bs = true
+  · simp [*]
+  by_cases c5 : isTar bs = true
+  · simp [*]
+  by_cases c6 : isMZ bs = true
+  · simp [*]
+  by_cases c7 : isCfb bs = true
+  · simp [*]
+  by_cases c8 : isCabHdr bs = true
+  · simp [*]
+  by_cases c9 : hasAsm bs = true
+  · simp [*]
+  by_cases cle : isMachoLE bs = true
+  · left; simp only [isMacho, cle, Bool.true_or]
+  by_cases cbe : isMachoBE bs = true
+  · right
+    have hx : ∀ (b : UInt8) (q : Bytes), b ≠ 0xfe → atPos bs (b :: q) 0 = false := by
+      intro b q n
+      have hbe : atPos bs pMacho64BE 0 = true ∨ atPos bs pMacho32BE 0 = true := by simpa using cbe
+      rcases hbe with h | h
+      · exact atPos0_excl h (Ne.symm n)
+      · exact atPos0_excl h (Ne.symm n)
+    have f1 : isFat bs = false := hx _ _ (by decide)
+    have f2 : isXar bs = false := hx _ _ (by decide)
+    have f3 : atPos bs [0x89] 0 = false := hx _ _ (by decide)
+    have f4 : atPos bs [0xc2] 0 = false := hx _ _ (by decide)
+    have f5 : atPos bs [0xc4] 0 = false := hx _ _ (by decide)
+    have g : isMacho bs = true := by simp only [isMacho, cbe, Bool.or_true]
+    refine ⟨?_, ?_, cbe⟩
+    · simp [*]
+    · simp only [g]; simp [*]
+  · left
+    have g : isMacho bs = isMachoLE bs := by
+      have : isMachoBE bs = false := by simpa using cbe
+      simp only [isMacho, this, Bool.or_false]
+    simp only [g]
+
+/-- no prefix pattern of the list before the repair starts with `FE` (the first byte of both new patterns) -/
+theorem macho_be_patterns_disjoint : ∀ r ∈ rulesOrigFM3, ∀ t ∈ r.tests, t.prefixByte 0xfe = false := by decide
+
+/-! ### the repair of FM1 (`Detect` reads through a 65540-byte buffer instead of 4096): what it changes, exactly -/
+
+/-- the original probe is the present one restricted to `e_lfanew + 4 ≤ 4096` -/
+theorem mzProbeOrig_eq (bs : Bytes) : mzProbeOrig bs = (mzProbe bs && decide (reloc bs + 4 ≤ bufSizeOrig)) := by
+  unfold mzProbeOrig mzProbe
+  have hr : leVal ((peekAny bs 0x3e).drop 0x3c) = reloc bs := rfl
+  by_cases hl : (peekAny bs 0x3e).length = 0x3e
+  · simp only [hl, if_true, hr]
+    unfold peekOkOrig peekOk
+    by_cases h1 : reloc bs + 4 ≤ bufSizeOrig
+    · have h2 : reloc bs + 4 ≤ bufSize := Nat.le_trans h1 (by decide)
+      simp [h1, h2]
+    · simp [h1]
+  · simp [hl]
+
+/-- Only the `MZ` probe looks beyond 262 bytes, so only it can tell the buffer sizes apart: the verdict changes for a file
+    iff it was Unknown because its PE signature lies beyond byte 4096; it then becomes PE/COFF.  Nothing that was detected as
+    some type before is detected differently now.  (For ALL byte strings.) -/
+theorem pe_deep_only_reclassifies_unknown (bs : Bytes) :
+    detect bs = detectOrigFM1 bs ∨
+    (detectOrigFM1 bs = .unknown ∧ detect bs = .pecoff ∧ bufSizeOrig < reloc bs + 4) := by
+  rw [detect_unfold, detectOrigFM1_unfold, mzProbeOrig_eq]
+  by_cases c0 : isRpm bs = true
+  · simp [*]
+  by_cases c1 : isDebHdr bs = true
+  · simp [*]
+  by_cases c2 : isArmor bs = true
+  · simp [*]
+  by_cases c3 : hasCtl bs = true
+  · simp [*]
+  by_cases c4 : hasSignedData bs = true
+  · simp [*]
+  by_cases c5 : isTar bs = true
+  · simp [*]
+  by_cases c6 : isMZ bs = true
+  · by_cases cp : mzProbe bs = true
+    · by_cases cb : reloc bs + 4 ≤ bufSizeOrig
+      · left; simp [*]
+      · right; simp [*]; omega
+    · left; simp [*]
+  · left; simp [*]
 
 /-! ### which type wins when two patterns match (witnesses; each is replayed on the real code by the correspondence) -/
 
